@@ -6,13 +6,17 @@ import (
 	"encoding/json"
 	"fmt"
 	"math/rand"
+	"net/url"
 	"os"
+	"os/exec"
 	"path/filepath"
+	"servitor/ansi"
 	"servitor/config"
 	"servitor/mime"
 	"servitor/object"
 	"servitor/pub"
 	"servitor/ui"
+	"strconv"
 	"strings"
 )
 
@@ -43,6 +47,70 @@ func runHook(hook []string, link string, mt *mime.MediaType) map[string]any {
 	return map[string]any{"argv": rec["argv"], "stdin": rec["stdin"]}
 }
 
+/* what the media keys and the number keys do on an item (ui.Update), without the UI */
+type opened struct {
+	item  pub.Tangible
+	post  *pub.Post
+	actor *pub.Actor
+	wrap  bool
+}
+
+func (o *opened) step(st []any) (string, *mime.MediaType, bool) {
+	switch st[0].(string) {
+	case "media":
+		if o.post != nil {
+			return o.post.Media()
+		}
+	case "pfp":
+		/* `p` and `b` look at the highlighted item itself: an activity is not an actor */
+		if o.actor != nil && !o.wrap {
+			return o.actor.ProfilePic()
+		}
+	case "banner":
+		if o.actor != nil && !o.wrap {
+			return o.actor.Banner()
+		}
+	case "select":
+		return o.item.SelectLink(I(Op{"v": st[1]}, "v"))
+	case "type":
+		/* digits as typed: what strconv.Atoi makes of them */
+		if k, err := strconv.Atoi(st[1].(string)); err == nil {
+			return o.item.SelectLink(k)
+		}
+	}
+	return "", nil, false
+}
+
+func stepKeys(st []any) (string, bool) {
+	switch st[0].(string) {
+	case "media":
+		return "o", true
+	case "pfp":
+		return "p", true
+	case "banner":
+		return "b", true
+	case "select":
+		k := I(Op{"v": st[1]}, "v")
+		if k < 0 {
+			return "", false
+		}
+		return strconv.Itoa(k) + "\r", true
+	case "type":
+		return st[1].(string) + "\r", true
+	}
+	return "", false
+}
+
+/* the dump program under its absolute path (a hook need not be found through PATH) */
+func absoluteProgram(name string) string {
+	if p, err := exec.LookPath(filepath.Base(name)); err == nil {
+		if a, err := filepath.Abs(p); err == nil {
+			return a
+		}
+	}
+	return name
+}
+
 func init() {
 	execs["media"] = func(op Op) any {
 		var doc map[string]any
@@ -57,51 +125,115 @@ func init() {
 		for _, a := range L(op, "hook") {
 			hook = append(hook, a.(string))
 		}
+		if B(op, "absprog") && len(hook) > 0 {
+			hook[0] = absoluteProgram(hook[0])
+			op["hook"] = toAnyList(hook)
+		}
 		o := object.Object(doc)
-		var post *pub.Post
-		var actor *pub.Actor
+		it := &opened{}
 		var err error
-		if S(op, "as") == "actor" {
-			actor, err = pub.NewActorFromObject(o, nil)
+		if wrap := S(op, "wrap"); wrap != "" {
+			/* the item is an activity around the document (what an outbox lists) */
+			var act *pub.Activity
+			act, err = pub.NewActivityFromObject(object.Object{"type": wrap, "object": doc}, nil)
 			if err == nil {
-				op["bodylinks"] = toAnyList(pub.VerifBioLinks(actor))
+				it.item, it.wrap = act, true
+				switch t := act.Target().(type) {
+				case *pub.Post:
+					it.post = t
+				case *pub.Actor:
+					it.actor = t
+				default:
+					return map[string]any{"noitem": true}
+				}
 			}
+		} else if S(op, "as") == "actor" {
+			it.actor, err = pub.NewActorFromObject(o, nil)
+			it.item = it.actor
 		} else {
-			post, err = pub.NewPostFromObject(o, nil)
-			if err == nil {
-				op["bodylinks"] = toAnyList(pub.VerifBodyLinks(post))
-			}
+			it.post, err = pub.NewPostFromObject(o, nil)
+			it.item = it.post
 		}
 		if err != nil {
 			return map[string]any{"noitem": true}
 		}
+		var bodylinks []string
+		var body any
+		if it.actor != nil {
+			bodylinks = pub.VerifBioLinks(it.actor)
+			_, body = pub.VerifActorFields(it.actor)
+		} else {
+			bodylinks = pub.VerifBodyLinks(it.post)
+			_, body = pub.VerifPostFields(it.post)
+		}
+		whole := B(op, "whole")
+		result := map[string]any{}
+		if whole {
+			/* the model works the body links out itself, from what the real parser made of the body */
+			op["body"] = dumpBody(body)
+			result["bodylinks"] = toAnyList(bodylinks)
+			texts := []any{}
+			for _, w := range L(op, "widths") {
+				texts = append(texts, it.item.String(I(Op{"v": w}, "v")))
+			}
+			op["texts"] = texts
+			/* every number from 0 to two past the last one, asked directly */
+			na := 0
+			switch a := doc["attachment"].(type) {
+			case []any:
+				na = len(a)
+			case nil:
+			default:
+				na = 1
+			}
+			sel := []any{}
+			for k := 0; k <= len(bodylinks)+na+2; k++ {
+				link, _, present := it.item.SelectLink(k)
+				sel = append(sel, []any{k, present, link})
+			}
+			result["sel"] = sel
+		} else {
+			op["bodylinks"] = toAnyList(bodylinks)
+		}
+		var st *ui.State
+		frames := []any{}
+		if S(op, "via") == "ui" {
+			/* the keys go through the real ui.Update on a page showing the item */
+			w := I(op, "uiw")
+			if w == 0 {
+				w = 80
+			}
+			st = ui.VerifStateOnItem(it.item, w, 12, func(f string) { frames = append(frames, f) })
+		}
 		steps := []any{}
 		for _, raw := range L(op, "steps") {
-			st := raw.([]any)
-			var link string
-			var mt *mime.MediaType
-			var present bool
-			switch st[0].(string) {
-			case "media":
-				if post != nil {
-					link, mt, present = post.Media()
+			step := raw.([]any)
+			if st != nil {
+				keys, ok := stepKeys(step)
+				if !ok {
+					steps = append(steps, map[string]any{"present": false})
+					continue
 				}
-			case "pfp":
-				if actor != nil {
-					link, mt, present = actor.ProfilePic()
+				dumpSeq++
+				file := filepath.Join(os.Getenv("VERIF_SCRATCH"), fmt.Sprintf("dump-%d-%d.json", os.Getpid(), dumpSeq))
+				os.Remove(file)
+				os.Setenv("VERIF_DUMP_FILE", file)
+				saved := config.Parsed.Media.Hook
+				config.Parsed.Media.Hook = hook
+				st.VerifType(keys)
+				config.Parsed.Media.Hook = saved
+				rawDump, err := os.ReadFile(file)
+				if err != nil {
+					steps = append(steps, map[string]any{"present": false})
+					continue
 				}
-			case "banner":
-				if actor != nil {
-					link, mt, present = actor.Banner()
-				}
-			case "select":
-				k := I(Op{"v": st[1]}, "v")
-				if post != nil {
-					link, mt, present = post.SelectLink(k)
-				} else {
-					link, mt, present = actor.SelectLink(k)
-				}
+				os.Remove(file)
+				var rec map[string]any
+				json.Unmarshal(rawDump, &rec)
+				steps = append(steps, map[string]any{"present": true, "argv": rec["argv"], "stdin": rec["stdin"]})
+				continue
 			}
+			link, mt, present := it.step(step)
 			if !present {
 				steps = append(steps, map[string]any{"present": false})
 				continue
@@ -117,14 +249,22 @@ func init() {
 			}
 			steps = append(steps, res)
 		}
-		return map[string]any{"steps": steps}
+		if st != nil {
+			op["frames"] = frames
+		}
+		result["steps"] = steps
+		return result
 	}
-	groups["media"] = group{gen: genMedia}
+	groups["media"] = group{gen: func(r *rand.Rand, n int, emit func(Op)) {
+		genMedia(r, n-n/2, emit)
+		genWhole(r, n/2, false, emit)
+	}}
 	groups["mediaL"] = group{gen: func(r *rand.Rand, n int, emit func(Op)) {
-		genMedia(r, n, func(op Op) {
+		genMedia(r, n-(2*n)/3, func(op Op) {
 			op["links_only"] = true
 			emit(op)
 		})
+		genWhole(r, (2*n)/3, true, emit)
 	}}
 }
 
@@ -134,6 +274,8 @@ func genLinkObject(r *rand.Rand, n int) any {
 	u := pick(r, uris)
 	if r.Intn(8) != 0 {
 		u = fmt.Sprintf("https://m.example/file%d", n)
+	} else if r.Intn(2) == 0 {
+		u = pick(r, hostileLinks)
 	}
 	key := "url"
 	if l["type"] == "Link" {
@@ -154,6 +296,9 @@ func genLinkObject(r *rand.Rand, n int) any {
 		l["mediaType"] = pick(r, []any{"%url/%subtype", "%mimetype/x", "\x1b[2J/\x07"})
 	case 4:
 		l["mediaType"] = nil
+	}
+	if r.Intn(5) == 0 {
+		l["mediaType"] = pick(r, mediaTypePool)
 	}
 	if r.Intn(3) == 0 {
 		l["name"] = pick(r, []any{"a picture", "", 7, "\x1b]0;x\x07"})
@@ -251,5 +396,459 @@ func genMedia(r *rand.Rand, n int, emit func(Op)) {
 		}
 		b, _ := json.Marshal(doc)
 		emit(Op{"op": "media", "doc": string(b), "as": as, "hook": hook, "steps": steps})
+	}
+}
+
+/* ---------- whole items: header + body + attachments, numbers read off the text ---------- */
+
+/*
+links as they can stand in fetched content: nothing here is special to servitor, everything
+
+	is special to a shell, an option parser or the placeholder substitution
+*/
+var hostileLinks = []string{"-rf", "--help", "--output=/tmp/x", "-", "--", "a b c", "  lead", "trail ", " ", "'; rm -rf ~ #", "\"quoted\"", "it's", "$(touch /tmp/pwn)", "`id`", "$HOME", "${IFS}x", "a;b|c&d", "~", "*", "\\", "line1\nline2", "a\tb",
+	"%url", "%mimetype", "%subtype", "%supertype", "%url%url", "%url %url", "x%url", "%URL", "%%url", "https://h/%75rl?x=%url",
+	"data:text/html,<script>alert(1)</script>", "data:image/png;base64,AAAA", "file:///etc/passwd", "javascript:alert(1)", "mailto:a@b.example?subject=x y", "relative/path", "../up", "/abs", "?q=1", "#frag", "//h.example/x",
+	"https://ex.example/a b", "https://ex.example/é漢", "https://ex.example/%zz", "https://ex.example/x?a=1&b=2", "&amp;", "é漢😀", "https://ex.example/\x1b[2J", "\u009b31m", "://bad", "HTTPS://EX.EXAMPLE/Up"}
+
+func attrEscape(s string) string {
+	return strings.ReplaceAll(strings.ReplaceAll(s, "&", "&amp;"), "\"", "&quot;")
+}
+
+type wholeGen struct {
+	r      *rand.Rand
+	n      int
+	labels []any
+	clean  bool // the numbers in the text can be counted: nothing else prints superscripts, every attachment is numbered
+	supers bool // the text carries superscript digits of its own: a number next to one cannot be read off
+}
+
+func (g *wholeGen) fresh() (string, string) {
+	g.n++
+	return fmt.Sprintf("W%dq", g.n), fmt.Sprintf("https://t.example/%d", g.n)
+}
+
+func (g *wholeGen) expect(label, target string) { g.labels = append(g.labels, []any{label, target}) }
+
+func (g *wholeGen) filler() string {
+	r := g.r
+	w := pick(r, []string{"some", "text", "here", "and", "there", "x", "12", "no. 3", "é漢😀", "a-b", "(see)", "&amp;", "&lt;a&gt;"})
+	if r.Intn(12) == 0 {
+		/* text that reads like a number of its own right before a link */
+		g.clean, g.supers = false, true
+		w = pick(r, []string{"x²", "¹", "m³", "⁰", "10⁹"})
+	}
+	return w
+}
+
+/* one HTML link-ish piece; returns the markup */
+func (g *wholeGen) htmlPiece(depth int) string {
+	r := g.r
+	switch weighted(r, 8, 3, 3, 2, 2, 2, 3, 4, 2) {
+	case 0: // plain anchor
+		l, t := g.fresh()
+		g.expect(l, t)
+		return "<a href=\"" + t + "\">" + l + "</a>"
+	case 1: // anchors that are no links: they must not take a number
+		l, _ := g.fresh()
+		return pick(r, []string{"<a>" + l + "</a>", "<a href=\"\">" + l + "</a>", "<a name=\"n\">" + l + "</a>", "<a href>" + l + "</a>", "<a href=\"&#27;&#7;\">" + l + "</a>", "<a HREF=\"\" title=\"https://t.example/no\">" + l + "</a>", "<a data-href=\"https://t.example/no\">" + l + "</a>"})
+	case 2: // an href that is only blank, or differently spelled attributes
+		l, t := g.fresh()
+		switch r.Intn(5) {
+		case 4: // control characters written as character references: gone from the link that is opened
+			g.expect(l, t+"[2J")
+			return "<a href=\"" + t + pick(r, []string{"&#27;", "&#x1b;", "&#x9d;", "&#129;", "&#07", "&#x90;&#0000027;"}) + "[2J" + pick(r, []string{"", "&#7;", "&#127;", "&#x8d;"}) + "\">" + l + "</a>"
+		case 0:
+			g.expect(l, " ")
+			return "<a href=\" \">" + l + "</a>"
+		case 1:
+			g.expect(l, t)
+			return "<A HREF=\"" + t + "\">" + l + "</A>"
+		case 2:
+			g.expect(l, t)
+			return "<a title=\"x\" href='" + t + "' href=\"https://t.example/second\">" + l + "</a>"
+		}
+		g.expect(l, t)
+		return "<a href=" + t + ">" + l + "</a>"
+	case 3: // media elements
+		l, t := g.fresh()
+		tag := pick(r, []string{"img", "video", "audio", "iframe"})
+		altk := "alt"
+		if tag == "iframe" {
+			altk = "title"
+		}
+		switch r.Intn(5) {
+		case 0: // no alt: the link is its own label
+			g.expect(t, t)
+			return "<" + tag + " src=\"" + t + "\">"
+		case 1: // no src: not a link
+			return "<" + tag + " " + altk + "=\"" + l + "\">"
+		}
+		g.expect(l, t)
+		return "<" + tag + " src=\"" + t + "\" " + altk + "=\"" + l + "\">"
+	case 4: // a linked image: two numbers, the anchor's first
+		l, t := g.fresh()
+		_, t2 := g.fresh()
+		g.expect(l, t)
+		return "<a href=\"" + t2 + "\"><img src=\"" + t + "\" alt=\"" + l + "\"></a>"
+	case 5: // links inside inline styles and inside each other
+		l, t := g.fresh()
+		g.expect(l, t)
+		tag := pick(r, []string{"b", "i", "u", "s", "code", "mark", "span", "em", "strong", "blink"})
+		if r.Intn(3) == 0 && depth < 2 {
+			return "<a href=\"" + t + "\"><" + tag + ">" + l + "</" + tag + "> " + g.htmlPiece(depth+1) + "</a>"
+		}
+		return "<" + tag + "><a href=\"" + t + "\">" + l + "</a></" + tag + ">"
+	case 6: // the same target under another number
+		if len(g.labels) > 0 {
+			prev := g.labels[r.Intn(len(g.labels))].([]any)
+			l, _ := g.fresh()
+			g.expect(l, prev[1].(string))
+			return "<a href=\"" + attrEscape(prev[1].(string)) + "\">" + l + "</a>"
+		}
+		fallthrough
+	case 7: // a link a shell, an option parser or the hook substitution would trip over
+		l, _ := g.fresh()
+		h := pick(r, hostileLinks)
+		if want := ansi.Scrub(h); want != "" {
+			g.expect(l, want)
+		}
+		return "<a href=\"" + attrEscape(h) + "\">" + l + "</a>"
+	}
+	/* blocks around links */
+	inner := g.htmlPiece(depth + 1)
+	if depth > 1 {
+		return inner
+	}
+	return pick(r, []string{"<blockquote>" + inner + "</blockquote>", "<ul><li>" + inner + "</li><li>" + g.filler() + "</li></ul>", "<h2>" + inner + "</h2>", "<p>" + inner + "</p>", "<pre>" + inner + "</pre>", "<div>" + inner + "<hr></div>"})
+}
+
+func (g *wholeGen) htmlBody() string {
+	r := g.r
+	parts := []string{}
+	k := r.Intn(6)
+	switch r.Intn(10) {
+	case 0:
+		k = 9 + r.Intn(5) // numbers of two digits
+	case 1:
+		if r.Intn(3) == 0 {
+			k = 98 + r.Intn(6) // ... and of three
+		}
+	}
+	for i := 0; i < k; i++ {
+		if r.Intn(3) == 0 {
+			parts = append(parts, g.filler())
+		}
+		parts = append(parts, g.htmlPiece(0))
+	}
+	if r.Intn(3) != 0 {
+		parts = append(parts, g.filler())
+	}
+	return strings.Join(parts, pick(r, []string{" ", " ", "\n", ", "}))
+}
+
+func (g *wholeGen) markdownBody() string {
+	r := g.r
+	parts := []string{}
+	defs := []string{}
+	k := r.Intn(6)
+	if r.Intn(10) == 0 {
+		k = 9 + r.Intn(5)
+	}
+	for i := 0; i < k; i++ {
+		l, t := g.fresh()
+		switch weighted(r, 5, 3, 3, 3, 3, 2, 2, 2, 2, 2, 2) {
+		case 0: // inline
+			g.expect(l, t)
+			parts = append(parts, g.filler()+" ["+l+"]("+t+")")
+		case 1: // reference, full / collapsed / shortcut
+			g.expect(l, t)
+			switch r.Intn(3) {
+			case 0:
+				parts = append(parts, "["+l+"][r"+l+"]")
+				defs = append(defs, "[r"+l+"]: "+t)
+			case 1:
+				parts = append(parts, "["+l+"][]")
+				defs = append(defs, "["+l+"]: <"+t+"> \"a title\"")
+			default:
+				parts = append(parts, "["+l+"]")
+				defs = append(defs, "["+strings.ToLower(l)+"]: "+t)
+			}
+		case 2: // autolink: the link is its own text
+			g.expect(t, t)
+			parts = append(parts, "<"+t+">")
+		case 3: // bare URL (GFM)
+			g.expect(t, t)
+			parts = append(parts, "see "+t+" .")
+		case 4: // image
+			g.expect(l, t)
+			parts = append(parts, "!["+l+"]("+t+")")
+		case 5: // inside emphasis
+			g.expect(l, t)
+			parts = append(parts, pick(r, []string{"**", "*", "~~", "***"})+"["+l+"]("+t+")"+"**")
+		case 6: // inside a code span or a code block: not a link, takes no number
+			parts = append(parts, pick(r, []string{"`[" + l + "](" + t + ")`", "\n\n    [" + l + "](" + t + ")\n\n", "\n\n```\n[" + l + "](" + t + ")\n```\n\n", "\\[" + l + "\\](" + t + ")", "[" + l + "] (" + t + "x)"}))
+		case 7: // linked image
+			_, t2 := g.fresh()
+			g.expect(l, t)
+			parts = append(parts, "[!["+l+"]("+t+")]("+t2+")")
+		case 8: // code inside the link text, a title, angle brackets
+			g.expect(l, t)
+			parts = append(parts, pick(r, []string{"[`" + l + "`](" + t + ")", "[" + l + "](" + t + " \"title\")", "[" + l + "](<" + t + ">)", "[*" + l + "*](" + t + ")"}))
+		case 9: // a link with an empty or missing destination
+			parts = append(parts, pick(r, []string{"[" + l + "]()", "[" + l + "](<>)", "[" + l + "][nowhere]", "[" + l + "](#)"}))
+		case 10: // destinations a shell or the hook substitution would trip over
+			parts = append(parts, "["+l+"]("+pick(r, []string{"-rf", "%url", "<a b>", "javascript:alert(1)", "$(id)", "<%mimetype>", "data:text/html,x", "../up", "mailto:a@b.example", "`id`", "<--help>"})+")")
+		}
+	}
+	sep := pick(r, []string{" ", "\n", "\n\n", "\n* ", "\n> "})
+	return strings.Join(parts, sep) + "\n\n" + strings.Join(defs, "\n")
+}
+
+func (g *wholeGen) gemtextBody() string {
+	r := g.r
+	lines := []string{}
+	k := r.Intn(6)
+	if r.Intn(10) == 0 {
+		k = 9 + r.Intn(5)
+	}
+	for i := 0; i < k; i++ {
+		l, t := g.fresh()
+		switch weighted(r, 6, 2, 2, 2, 2, 3) {
+		case 0:
+			g.expect(l, t)
+			lines = append(lines, "=>"+pick(r, []string{"", " ", "  "})+t+" "+l)
+		case 1: // no label: the link is shown
+			g.expect(t, t)
+			lines = append(lines, "=> "+t)
+		case 2: // an empty link line still takes a number
+			lines = append(lines, pick(r, []string{"=>", "=> "}))
+		case 3: // not link lines
+			lines = append(lines, pick(r, []string{" => " + t + " " + l, "= > " + t, "```", "=> " + t + " " + l, "```", "text => " + t}))
+		case 4:
+			lines = append(lines, pick(r, []string{"# ", "* ", "> ", ""})+g.filler())
+		case 5: // hostile, up to the first blank
+			h := pick(r, hostileLinks)
+			if !strings.ContainsAny(h, " \t\n") && ansi.Scrub(h) == h && h != "" {
+				g.expect(l, h)
+			}
+			lines = append(lines, "=> "+strings.ReplaceAll(h, "\n", " ")+" "+l)
+		}
+	}
+	return strings.Join(lines, "\n")
+}
+
+func (g *wholeGen) plainBody() string {
+	r := g.r
+	parts := []string{}
+	k := r.Intn(6)
+	if r.Intn(10) == 0 {
+		k = 9 + r.Intn(5)
+	}
+	for i := 0; i < k; i++ {
+		_, t := g.fresh()
+		switch weighted(r, 6, 2, 2) {
+		case 0:
+			g.expect(t, t)
+			parts = append(parts, g.filler(), t)
+		case 1:
+			h := pick(r, []string{"file:///etc/passwd", "x://$(id)", "javascript://%0Aalert(1)", "a+b.c-d://h[1]:2/p?q=1#f", "x://-rf", "x://%url", "ssh://;rm", "HTTP://EX.EXAMPLE/"})
+			g.expect(h, h)
+			parts = append(parts, h)
+		case 2:
+			parts = append(parts, pick(r, []string{"mailto:a@b.example", "://none", "http:/one", "1x://digit", "-rf", "%url"}))
+		}
+	}
+	return strings.Join(parts, pick(r, []string{" ", "\n", " , "}))
+}
+
+/*
+	An attachment whose label cannot be computed (a name of the wrong type, neither a name nor a
+	usable link) is shown as an error — with its number, like every other attachment (repaired
+	in the code: it used to be shown without one while the next attachment skipped that number).
+	Such entries are generated and the count of the numbers is judged on them.
+*/
+
+func (g *wholeGen) attachment() any {
+	r := g.r
+	l, t := g.fresh()
+	kind := pick(r, []string{"Link", "Link", "Image", "Audio", "Video", "Document"})
+	key := "url"
+	if kind == "Link" {
+		key = "href"
+	}
+	a := map[string]any{"type": kind}
+	raw := t
+	if r.Intn(4) == 0 {
+		raw = pick(r, hostileLinks)
+	}
+	parsed, perr := url.Parse(ansi.Scrub(raw))
+	usable := perr == nil && ansi.Scrub(raw) != ""
+	switch weighted(r, 10, 1, 1) {
+	case 0:
+		a[key] = raw
+	case 1: // under the other kind's key: no link at all
+		usable = false
+		a[map[string]string{"url": "href", "href": "url"}[key]] = raw
+	case 2:
+		usable = false
+	}
+	switch weighted(r, 8, 3, 1, 1) {
+	case 0:
+		a["name"] = l
+		if usable {
+			g.expect(l, parsed.String())
+		} else {
+			/* numbered, but the number opens nothing */
+		}
+	case 1: // no name: the link is shown
+		if usable {
+			g.expect(parsed.String(), parsed.String())
+		} else {
+			/* neither a name nor a link: an error line, numbered */
+		}
+		if r.Intn(2) == 0 {
+			a["name"] = pick(r, []any{"", nil, "\x1b\x07"})
+		}
+	case 2:
+		a["name"] = pick(r, []any{7, true, []any{"n"}, map[string]any{}})
+	case 3:
+		a["name"] = l + " " + pick(r, []string{"x²", "\x1b[2J", "\u009b", "a\nb"})
+		g.clean, g.supers = false, true
+	}
+	if r.Intn(2) == 0 {
+		a["mediaType"] = pick(r, mediaTypePool)
+	}
+	return a
+}
+
+var mediaTypePool = []any{"image/png", "image/jpeg", "video/mp4", "audio/ogg", "text/html", "application/pdf", "image/*", "*/*",
+	/* parameters, letter case, structured suffixes, more than one slash */
+	"image/png; q=1", "text/html;charset=utf-8", "IMAGE/PNG", "image/svg+xml", "application/ld+json; profile=\"https://www.w3.org/ns/activitystreams\"", "image/png/extra", "a/b/c", "x-y.z/v1+w",
+	/* no media type at all */
+	"nonsense", "", "/", "image/", "/png", " image/png", "image /png", "image/ png", "image/png\n", "\nimage/png", 5, nil, true, []any{"image/png"},
+	/* placeholders and control characters inside one */
+	"%url/%subtype", "%mimetype/x", "%supertype/%subtype", "\x1b[2J/\x07", "image/p\u009bng", "image/png\x00"}
+
+func genWhole(r *rand.Rand, n int, linksOnly bool, emit func(Op)) {
+	args := []string{"%url", "%url", "%mimetype", "%subtype", "%supertype", "--", "x%url", "%mimetype;q", "--title=%subtype", "%supertype/%subtype", "%url%url", "--url=%url", "%url", "%mimetype", "%subtype", "%supertype"}
+	for i := 0; i < n; i++ {
+		g := &wholeGen{r: r, clean: true}
+		doc := map[string]any{}
+		as := "post"
+		bodyKey := "content"
+		if r.Intn(4) == 0 {
+			as, bodyKey = "actor", "summary"
+			doc["type"] = pick(r, []string{"Person", "Person", "Group", "Service", "Application", "Organization"})
+			doc["name"] = "Somebody"
+			if r.Intn(2) == 0 {
+				doc["icon"] = genLinkList(r, false)
+			}
+			if r.Intn(2) == 0 {
+				doc["image"] = genLinkList(r, false)
+			}
+		} else {
+			doc["type"] = pick(r, []string{"Note", "Note", "Article", "Page", "Document", "Image", "Audio", "Video"})
+			if r.Intn(2) == 0 {
+				doc["name"] = "A title " + g.filler()
+			}
+			if r.Intn(3) == 0 {
+				doc["url"] = genLinkList(r, true)
+			}
+			if r.Intn(6) == 0 {
+				doc["published"] = pick(r, []string{"2024-01-02T03:04:05Z", "yesterday"})
+			}
+		}
+		switch weighted(r, 5, 3, 2, 2, 1) {
+		case 0:
+			doc[bodyKey] = g.htmlBody()
+			if r.Intn(2) == 0 {
+				doc["mediaType"] = pick(r, []string{"text/html", "text/html; charset=utf-8", "text/html;x"})
+			}
+		case 1:
+			doc[bodyKey], doc["mediaType"] = g.markdownBody(), "text/markdown"
+		case 2:
+			doc[bodyKey], doc["mediaType"] = g.gemtextBody(), "text/gemini"
+		case 3:
+			doc[bodyKey], doc["mediaType"] = g.plainBody(), "text/plain"
+		case 4:
+			/* no body, or one that cannot be shown: attachments are numbered from 1 */
+			if r.Intn(2) == 0 {
+				doc[bodyKey], doc["mediaType"] = g.htmlBody(), pick(r, []string{"application/json", "TEXT/HTML", "nonsense"})
+				g.labels = nil
+			}
+		}
+		if as == "post" && r.Intn(3) != 0 {
+			atts := []any{}
+			for k := 1 + r.Intn(4); k > 0; k-- {
+				atts = append(atts, g.attachment())
+			}
+			switch r.Intn(12) {
+			case 0: // one entry that is no link spoils the list: nothing is numbered
+				atts = append(atts, pick(r, []any{"https://t.example/bare", 5, map[string]any{"type": "Note"}, nil}))
+				g.clean = false
+			case 1: // a single object instead of a list
+				if len(atts) == 1 {
+					doc["attachment"] = atts[0]
+					atts = nil
+				}
+			}
+			if atts != nil {
+				doc["attachment"] = atts
+			}
+		}
+		op := Op{"op": "media", "whole": true, "as": as}
+		if r.Intn(6) == 0 {
+			op["wrap"] = pick(r, []string{"Create", "Announce", "Like", "Dislike"})
+		}
+		/* the numbers: every one from 0 to two past the last, in some order, one of them again */
+		total := g.n + 2
+		if total > 14 {
+			total = 14
+		}
+		steps := []any{}
+		ui := r.Intn(2) == 0
+		for k := 0; k <= total; k++ {
+			if r.Intn(3) != 0 {
+				steps = append(steps, []any{"select", k})
+			}
+		}
+		if g.n > 14 {
+			steps = append(steps, []any{"select", g.n}, []any{"select", g.n/2 + 1}, []any{"select", 100}, []any{"select", 99}, []any{"select", 101})
+		}
+		if !ui {
+			steps = append(steps, []any{"select", pick(r, []int{-1, -2, -1 << 31, -1 << 63, 1 << 31, 1<<63 - 1})})
+		}
+		steps = append(steps, []any{"type", pick(r, []string{"01", "007", "010", "08", "09", "0012", "00", "0000000000000000000001", "99999999999999999999", "9223372036854775807", "9223372036854775808", "18446744073709551617", "2", "10"})})
+		steps = append(steps, []any{pick(r, []string{"media", "pfp", "banner"})})
+		r.Shuffle(len(steps), func(a, b int) { steps[a], steps[b] = steps[b], steps[a] })
+		if len(steps) > 0 {
+			steps = append(steps, steps[r.Intn(len(steps))])
+		}
+		if ui {
+			op["via"] = "ui"
+			op["uiw"] = pick(r, []int{80, 80, 40, 20, 9, 200})
+		}
+		hook := []any{"verifdump", "%url"}
+		if !linksOnly {
+			hook = []any{pick(r, []string{"verifdump", "verifdump", "verifdump", "%url", "%mimetype"})}
+			for k := 1 + r.Intn(4); k > 0; k-- {
+				hook = append(hook, pick(r, args))
+			}
+			if r.Intn(4) == 0 {
+				op["absprog"] = true
+			}
+		} else if !ui {
+			op["links_only"] = true
+		}
+		widths := []any{pick(r, []int{80, 84, 120, 200, 40}), pick(r, []int{24, 30, 16, 12, 8, 3, 60})}
+		b, _ := json.Marshal(doc)
+		/* labels describe this very document: they mean nothing once the text has been cut */
+		op["doclen"] = len([]rune(string(b)))
+		op["doc"], op["hook"], op["steps"], op["widths"], op["labels"], op["checknumbers"] = string(b), hook, steps, widths, g.labels, g.clean
+		if g.supers {
+			op["labels"] = []any{}
+		}
+		emit(op)
 	}
 }
